@@ -542,6 +542,19 @@ def check_flux_laws(case):
         if not np.all(exact):
             labels.append("gauss:cells-with-nonlinear-integrand")
         ref_lo, ref_hi = mid, corner
+        # ... and it is the documented rule, weights included: the 'max' Gauss rule of the unit cell (whose
+        # exactness the other sub-checks establish) applied to |v|, written out here point by point
+        qp, qw = Q.gauss_reference_cell(dim, "max")
+        qp = np.asarray(qp, dtype=float).reshape(len(np.asarray(qw)), -1)
+        byrule = np.zeros(shape)
+        for xq, wq in zip(qp, np.asarray(qw, dtype=float)):
+            vq = (1.0 - xq) * lo + xq * hi
+            byrule += wq * np.sqrt(np.sum(vq**2, axis=-1))
+        d = np.abs(dens - byrule)
+        if np.any(d > 16 * tol):
+            b = worst(d)
+            raise V("consumer-gauss-rule", f"cell {b}: density {dens[tuple(b)]!r}, the 'max' Gauss rule with its "
+                    f"weights gives {byrule[tuple(b)]!r}", t)
 
     # second request on the same object
     again = w1.transport_density(flux, weighted=False, flatten=False)
